@@ -542,7 +542,7 @@ call `(g n)` as a tail jump, `(defn g [n] (def g 7) (g n))` as an ordinary call:
 does not equal the hand-written form. -/
 theorem C15_counterexample_rebinding_through_macro :
     genProgram (rbE false) 50 [defG (lst [sym "defv", sym "g", num 7])]
-      = some [.fnOpen, .prepCall 1, .remScope, .goto0, .remScope, .fnClose]
+      = some [.fnOpen, .prepCall 1, .remScope, .goto0, .callX "g" 1, .remScope, .fnClose]
     ∧ genProgram (rbE false) 50 [defG (lst [sym "def", sym "g", num 7])]
       = some [.fnOpen, .callX "g" 1, .remScope, .fnClose] := by
   decide
